@@ -19,6 +19,8 @@ import Hw.Topo.RenderPU
 import Hw.Topo.RestrictExists
 import Hw.Topo.RestrictAllowed
 import Hw.Topo.RestrictUnique
+import Hw.Topo.RestrictCover
+import Hw.Topo.RestrictNoOrder
 import Hw.Topo.HistoryLemmas
 import Hw.Attr.MemAttrsState
 namespace Hw.Props.C08
@@ -1065,21 +1067,23 @@ theorem restrict_ok_plan (t : Topo) (s : CSet) (flags : Nat) (h : (restrict t s 
 /-- the four topology-level clauses of this section -/
 def provedTopClausesB2 : List String := ["normal-level-types", "pu-level-deepest", "numa-exists", "allowed-sets"]
 
-/-- **C08_restrict_from_wf_top_partial** — from `WF d` (a tree could be rebuilt, the API fact on filters) and the coverage of the two
-    allowed sets by the PUs / NUMA nodes (`coverT`, a consequence of the C01 set clauses that is evaluated, not derived): for EVERY
+/-- **C08_restrict_from_wf_top_partial** — from `WF d` (a tree could be rebuilt, the API fact on filters) and the coverage of the
+    allowed nodeset by the NUMA nodes (`coverT … tNUMA`, a consequence of the C01 clause nodeset-decomposition that is evaluated, not
+    derived; the coverage of the allowed cpuset by the PUs IS derived from `WF d`: C08_wf_cover_pu): for EVERY
     set and EVERY flag word — REMOVE_CPULESS / REMOVE_MEMLESS included, refused calls included — the rendering of the model's result
     satisfies normal-level-types, pu-level-deepest, numa-exists and allowed-sets.  With the 11 clauses of
     C08_restrict_from_wf_partial: 15 of the 18 topology-level clauses (the other three are the uniqueness clauses
     pu-osindex-unique / numa-osindex-unique / gp-index-unique).
-    `_partial`: `coverT` stays a hypothesis. -/
+    `_partial`: `coverT` of the allowed NODESET stays a hypothesis. -/
 theorem C08_restrict_from_wf_top_partial (d : Dump) (h : WF d) (t : Tree) (ht : treeOf d = .ok t)
     (hf1 : filterOf d.filters tPU ≠ filterKeepStructure) (hf2 : filterOf d.filters tMACHINE ≠ filterKeepStructure)
-    (hcp : coverT (d.allowedCpuset.getD 0) tPU t = true) (hcn : coverT (d.allowedNodeset.getD 0) tNUMA t = true)
+    (hcn : coverT (d.allowedNodeset.getD 0) tNUMA t = true)
     (s : CSet) (flags : Nat) (ex : RObj → Extra) :
     let T : Topo := { tree := t, allowedCpu := d.allowedCpuset.getD 0, allowedNode := d.allowedNodeset.getD 0, filters := d.filters }
     let D := afterDump T d.flags s flags ex
     ∀ c ∈ provedTopClausesB2, topClause c D (mkAux D) = true := by
   intro T D
+  have hcp : coverT (d.allowedCpuset.getD 0) tPU t = true := wf_cover_pu h t ht
   obtain ⟨hok, hty, hm, hr, hleaf, hpus, hnumas⟩ := wf_treeOf_full h t ht
   obtain ⟨_, h1m, hsafe⟩ := C08_wf_mergeSafe d h t ht (d.allowedCpuset.getD 0) (d.allowedNodeset.getD 0) hf1 hf2
   have base := C08_restrict_from_wf_levels_partial d h t ht hf1 hf2 s flags ex
@@ -1143,22 +1147,22 @@ theorem C08_restrict_unique (d : Dump) (h : WF d) (t : Tree) (ht : treeOf d = .o
   ⟨wf_osUnique h t ht, fun ty T s flags hu => osUnique_restrict ty T s flags hu, fun T hd ex => render_unique T hd ex⟩
 
 /-- **C08_restrict_wf_top_partial** — the topology-level half of `WF (afterDump …)`, complete: from `WF d` (a tree could be rebuilt, the
-    API fact on filters) and the coverage of the two allowed sets (`coverT`), for EVERY set and EVERY flag word the rendering of the
+    API fact on filters) and the coverage of the allowed nodeset (`coverT … tNUMA`), for EVERY set and EVERY flag word the rendering of the
     model's result satisfies EVERY topology-level clause of `WF` (all 18 entries of `topClauses`: the 11 of
     C08_restrict_from_wf_partial, the 4 of C08_restrict_from_wf_top_partial, the 3 uniqueness clauses).
-    `_partial` with respect to C08_restrict_wf: `coverT` is a hypothesis, `treeOf d = .ok t` is a hypothesis (it does NOT follow from
+    `_partial` with respect to C08_restrict_wf: `coverT` of the allowed nodeset is a hypothesis, `treeOf d = .ok t` is a hypothesis (it does NOT follow from
     `WF d`: WF does not force parents to precede their children in the object list, which `treeOf` requires), and of the 29
     object-level clauses 14 are proved (`provedObjClauses`); the set / memory / attribute clauses are still judged by wfCheck. -/
 theorem C08_restrict_wf_top_partial (d : Dump) (h : WF d) (t : Tree) (ht : treeOf d = .ok t)
     (hf1 : filterOf d.filters tPU ≠ filterKeepStructure) (hf2 : filterOf d.filters tMACHINE ≠ filterKeepStructure)
-    (hcp : coverT (d.allowedCpuset.getD 0) tPU t = true) (hcn : coverT (d.allowedNodeset.getD 0) tNUMA t = true)
+    (hcn : coverT (d.allowedNodeset.getD 0) tNUMA t = true)
     (s : CSet) (flags : Nat) (ex : RObj → Extra) :
     let T : Topo := { tree := t, allowedCpu := d.allowedCpuset.getD 0, allowedNode := d.allowedNodeset.getD 0, filters := d.filters }
     let D := afterDump T d.flags s flags ex
     ∀ c ∈ topClauses, c.2 D (mkAux D) = true := by
   intro T D c hc
   have a := (C08_restrict_from_wf_partial d h t ht hf1 hf2 s flags ex).2.2.1
-  have b := C08_restrict_from_wf_top_partial d h t ht hf1 hf2 hcp hcn s flags ex
+  have b := C08_restrict_from_wf_top_partial d h t ht hf1 hf2 hcn s flags ex
   obtain ⟨_, _, hsafe⟩ := C08_wf_mergeSafe d h t ht (d.allowedCpuset.getD 0) (d.allowedNodeset.getD 0) hf1 hf2
   obtain ⟨_, hty, _, hr, hleaf, _, _⟩ := wf_treeOf_full h t ht
   have hu := wf_osUnique h t ht
@@ -1202,5 +1206,26 @@ theorem C08_restrict_type_filter (d : Dump) (h : WF d) (t : Tree) (ht : treeOf d
   have r := render_type_filter (restrict T s flags).1.tree
     ⟨d.flags, (restrict T s flags).1.filters, some (restrict T s flags).1.allowedCpu, some (restrict T s flags).1.allowedNode⟩ ex o ho
   exact ⟨r.1 (typed_restrict T s flags hty hr).1, r.2 (notFiltered_restrict T s flags hn)⟩
+
+/-- (2) **the allowed cpuset of a well-formed dump is covered by the PUs** (`coverT` for the CPU side, derived): in a WF dump every
+    index of the cpuset of a normal object is the os_index of a PU (induction over the depth: cpuset-is-disjoint-union-of-children
+    pushes a bit down to a child, depth-increases bounds the descent, a childless normal object with a non-empty cpuset is a PU with
+    cpuset {os_index}), the allowed cpuset is inside the root's cpuset, and the tree lists every dump object.  Hence, from `WF d`
+    ALONE: a planned restrict by cpuset has a PU with os_index in S, and leaves a PU -/
+theorem C08_wf_cover_pu (d : Dump) (h : WF d) (t : Tree) (ht : treeOf d = .ok t) :
+    coverT (d.allowedCpuset.getD 0) tPU t = true ∧
+    ∀ (s : CSet) (flags : Nat) (p : Params),
+      plan { tree := t, allowedCpu := d.allowedCpuset.getD 0, allowedNode := d.allowedNodeset.getD 0, filters := d.filters } s flags = some p →
+      p.byNode = false → ∃ x ∈ objsT t, x.type = tPU ∧ s.mem x.osidx.toNat = true :=
+  ⟨wf_cover_pu h t ht, fun s flags p hp hb => (own_kind_protected _ s flags p hp).1 hb (wf_cover_pu h t ht)⟩
+
+/-- (4) **`treeOf d = .ok t` is NOT a consequence of `WF d`**, so it has to stay a hypothesis of the `…_from_wf…` theorems: `orderDump`
+    (Machine [Core [PU] + NUMA + Misc] with the Misc object listed before its parent Core) satisfies every clause of WF, and `treeOf`,
+    which folds the object list from the right and needs every parent before its children, refuses it.  No WF clause orders the ids
+    across levels (Hw.Topo.WFTree: `T_order` "is NOT a consequence of WF"); the dumps of harness/dump.h are numbered in DFS order. -/
+theorem C08_treeOf_not_from_wf : ∃ d : Dump, WF d ∧ ∀ t, treeOf d ≠ .ok t :=
+  ⟨orderDump, by decide +kernel, fun t h => by
+    have e : (match treeOf orderDump with | .ok _ => true | .error _ => false) = false := by decide +kernel
+    rw [h] at e; cases e⟩
 
 end Hw.Props.C08
